@@ -740,14 +740,14 @@ class Emitter:
             decls[dst] = s.cty(PtrTy(ty))
             body.append('%s = &%s_mem;' % (dst, dst)); return
         if op == 'load':
-            p.accept('volatile'); ty = parse_type(p); p.expect(','); pty = parse_type(p); a = s.operand(p, pty)
+            p.accept('atomic'); p.accept('volatile'); ty = parse_type(p); p.expect(','); pty = parse_type(p); a = s.operand(p, pty)   # atomic orderings are irrelevant in the sequential model
             if isinstance(ty, IntTy) and ty.bits not in (8, 16, 32, 64) and ty.bits != 1:
                 if ty.bits % 8 != 0 or ty.bits > 64: raise Unsupported('odd-width load i%d' % ty.bits)
                 return setv(ty, '((%s)vrt_load_odd((const uint8_t*)%s, %d))' % (s.cty(ty), a, ty.bits // 8))
             if isinstance(ty, ArrTy): raise Unsupported('array-valued load')
             return setv(ty, '*%s' % a)
         if op == 'store':
-            p.accept('volatile'); ty = parse_type(p); v = s.operand(p, ty); p.expect(','); pty = parse_type(p); a = s.operand(p, pty)
+            p.accept('atomic'); p.accept('volatile'); ty = parse_type(p); v = s.operand(p, ty); p.expect(','); pty = parse_type(p); a = s.operand(p, pty)
             if isinstance(ty, IntTy) and ty.bits not in (1, 8, 16, 32, 64):
                 if ty.bits % 8 != 0 or ty.bits > 64: raise Unsupported('odd-width store i%d' % ty.bits)
                 body.append('vrt_store_odd((uint8_t*)%s, (uint64_t)%s, %d);' % (a, v, ty.bits // 8)); return
@@ -776,6 +776,8 @@ class Emitter:
             ty = parse_type(p)
             if isinstance(ty, VoidTy): body.append('return;')
             else: body.append('return %s;' % s.operand(p, ty))
+            return
+        if op == 'fence':
             return
         if op == 'unreachable':
             body.append('VRT_UB("reached unreachable");'); return
